@@ -225,6 +225,7 @@ class KafkaClient(object):
         self._disconnect_on_timeout = disconnect_on_timeout
         self._brokers = {}  # Broker-NodeID -> BrokerMetadata
         self._closing = False  # Are we shutting down/shutdown?
+        self._bootstrap_ds = set()  # In-progress bootstrap connects/requests
         self.update_cluster_hosts(hosts)  # Store hosts and mark for lookup
         if reactor is None:
             from twisted.internet import reactor
@@ -383,6 +384,9 @@ class KafkaClient(object):
         # Close down any clients we have
         brokerclients, self.clients = self.clients, None
         self._close_brokerclients(brokerclients.values())
+        # Abort bootstrap connection attempts and requests in progress
+        for d in list(self._bootstrap_ds):
+            d.cancel()
         # clean up other outstanding operations
         self.reset_all_metadata()
         return self.close_dlist or defer.succeed(None)
@@ -1150,6 +1154,16 @@ class KafkaClient(object):
         # boostrapping.
         returnValue((yield self._send_bootstrap_request(request)))
 
+    def _cancel_on_close(self, d):
+        """Have `close()` cancel *d* if it is still pending by then"""
+        self._bootstrap_ds.add(d)
+
+        def _done(result):
+            self._bootstrap_ds.discard(d)
+            return result
+
+        return d.addBoth(_done)
+
     @inlineCallbacks
     def _send_bootstrap_request(self, request):
         """Make a request using an ephemeral broker connection
@@ -1182,15 +1196,20 @@ class KafkaClient(object):
         hostports = list(self._bootstrap_hosts)
         random.shuffle(hostports)
         for host, port in hostports:
+            if self._closing:
+                # close() was called while this operation was in progress
+                raise CancelledError(message="{} has been closed".format(self))
             ep = self._endpoint_factory(self.reactor, host, port)
             try:
-                protocol = yield ep.connect(_bootstrapFactory)
+                protocol = yield self._cancel_on_close(ep.connect(_bootstrapFactory))
             except Exception as e:
                 log.debug("%s: bootstrap connect to %s:%s -> %s", self, host, port, e)
                 continue
 
             try:
-                response = yield protocol.request(request).addTimeout(self.timeout, self.reactor)
+                response = yield self._cancel_on_close(
+                    protocol.request(request).addTimeout(self.timeout, self.reactor)
+                )
             except Exception:
                 log.debug(
                     "%s: bootstrap %s to %s:%s failed",
@@ -1205,6 +1224,8 @@ class KafkaClient(object):
             finally:
                 protocol.transport.loseConnection()
 
+        if self._closing:
+            raise CancelledError(message="{} has been closed".format(self))
         raise KafkaUnavailableError("Failed to bootstrap from hosts {}".format(hostports))
 
     @inlineCallbacks
